@@ -32,8 +32,8 @@ os.makedirs(dst, exist_ok=True)
 for f in ("patch.diff", "demo.diff", "README.md"):
     shutil.copy(os.path.join(sd, f), os.path.join(dst, f))
 meta = {
-    "property": pid, "round": 2,
-    "origin": "independent sub-agent given only the property text and a scratch worktree of /repo at the fixed HEAD (asked for a subtle change in a less obvious mechanism)",
+    "property": pid, "round": int(os.environ.get("SEED_ROUND", "2")),
+    "origin": "independent sub-agent given only the property text and a scratch worktree of /repo at the fixed HEAD (asked for a subtle change in a less obvious mechanism; round 3: disguised as a feature / optimisation / robustness fix outside the central function)",
     "needs_to_manifest": needs,
     "confirmed_by_me": {
         "suite_with_patch": ev["suite_with_patch"],
